@@ -12,6 +12,11 @@ CONSTANTS Table <- McTable
  SlackK = 16384
  C = 256
  HsLimitDevK = 1048576
+ SeqOn = FALSE
+ SeqBlocks <- NoBlocks
+ SeqMsgs <- NoMsgs
+ SeqConfirms <- NoConfirms
+ SeqMix <- NoMix
  Dev <- NoDev
 INVARIANTS TypeOK UniqueRows NodeAlive NoDeadlock AllocBounded
 PROPERTIES ClosedIsFinal OnlyHandshakesAdvance
